@@ -147,15 +147,22 @@ def check_history(case):
                             continue
                         return ("rejects.banned", f"reserved name {b} accepted by {how} at {where}")
             elif op == "delattr":
+                # nothing can be deleted: HDL attributes, the object's own public and private attributes, absent names
+                for victim in (name, "_initialized", "_elaborated", "name", "namespace", "_no_such_attribute"):
+                    try:
+                        delattr(m, victim)
+                    except RuntimeError:
+                        continue
+                    except AttributeError:
+                        return ("rejects.delattr", f"delattr({victim!r}) raised AttributeError rather than the refusal at {where}")
+                    return ("rejects.delattr", f"deletion of attribute {victim!r} accepted at {where}")
+                # ... and the object still sorts what it is given
                 try:
-                    delattr(m, name)
-                except RuntimeError:
+                    setattr(m, "not_hdl", 5)
+                except TypeError:
                     pass
-                except AttributeError:
-                    if is_mod:
-                        return ("rejects.delattr", f"delattr raised AttributeError rather than RuntimeError at {where}")
                 else:
-                    return ("rejects.delattr", f"attribute deletion accepted at {where}")
+                    return ("rejects.non-attr", f"non-HDL value accepted after deletion attempts at {where}")
             elif op == "reuse_obj":
                 # an object the module already holds, assigned under another name (`m.b = m.a`): it MOVES - an object
                 # has one name (held under both it would be exported twice, as two `b`s)
